@@ -1,6 +1,7 @@
 package chainsim
 
 import (
+	"bytes"
 	"crypto/sha256"
 	"encoding/binary"
 	"fmt"
@@ -8,6 +9,8 @@ import (
 	"github.com/elastos/Elastos.ELA/account"
 	"github.com/elastos/Elastos.ELA/common"
 	"github.com/elastos/Elastos.ELA/core/contract"
+	pg "github.com/elastos/Elastos.ELA/core/contract/program"
+	"github.com/elastos/Elastos.ELA/core/types/interfaces"
 	"github.com/elastos/Elastos.ELA/crypto"
 )
 
@@ -63,6 +66,43 @@ func addMultisigActors(actors []*actor, nKeyed int, seed uint64, n int) []*actor
 			acc: &account.Account{ProgramHash: *ph, RedeemScript: code, Address: addr}})
 	}
 	return actors
+}
+
+// witnessVariant returns the same transaction (same id) carrying a larger but
+// equally valid witness, or nil when none exists: an honest spend from an
+// M-of-N multisig address with M < N may carry M+1 member signatures.
+func (s *sim) witnessVariant(pi *txInfo) interfaces.Transaction {
+	progs := pi.tx.Programs()
+	if len(progs) != 1 || pi.facts.tampered {
+		return nil
+	}
+	var from *actor
+	for _, a := range s.actors {
+		if a.multi != nil && bytes.Equal(a.acc.RedeemScript, progs[0].Code) {
+			from = a
+		}
+	}
+	if from == nil || !pi.facts.signedBy[from.idx] || from.multi.m >= len(from.multi.members) {
+		return nil
+	}
+	cp := cloneTx(pi.tx)
+	var unsigned bytes.Buffer
+	cp.SerializeUnsigned(&unsigned)
+	var param []byte
+	for k := 0; k < from.multi.m+1; k++ {
+		who := s.actors[from.multi.members[k]]
+		sig, err := signData(who.acc.PrivKey(), unsigned.Bytes())
+		if err != nil {
+			panic(fmt.Sprintf("harness: sign: %v", err))
+		}
+		param = append(param, byte(len(sig)))
+		param = append(param, sig...)
+	}
+	cp.SetPrograms([]*pg.Program{{Code: from.acc.RedeemScript, Parameter: param}})
+	if cp.Hash() != pi.tx.Hash() {
+		panic("harness: witness variant changed the transaction id")
+	}
+	return cp
 }
 
 // multiParam builds the parameter (signature area) of a spend from a multisig
